@@ -91,7 +91,13 @@ func collectSources(p *Prog, e *flowEngine, scope func(pkg string) bool) map[str
 		if depth >= 3 {
 			return me
 		}
-		for k, l := range f {
+		var fkeys []string
+		for k := range f {
+			fkeys = append(fkeys, k)
+		}
+		sort.Strings(fkeys)
+		for _, k := range fkeys {
+			l := f[k]
 			if !strings.HasPrefix(k, "escape:ret") || l == lNone {
 				continue
 			}
